@@ -341,6 +341,47 @@ fn common_t_written(e: &Exec, s: Side) -> usize {
     transport_wires(e, s).len()
 }
 
+/// "Drawn from the resolver's random source": with the scripted source the draws themselves are observed; with the
+/// sources the built-in resolvers hand out (default, and ring preferred over default) what can be observed is that
+/// no two ephemerals ever coincide - across sessions, roles, names and backends. 3 sessions x 2 backends x 4 names;
+/// every message that starts with an `e` contributes its first pub_len bytes.
+fn builtin_rng_sessions(ctx: &Ctx) {
+    use crate::seam::Backend;
+    let mut seen: Vec<(Vec<u8>, String)> = vec![];
+    for backend in [Backend::Default, Backend::Ring] {
+        for (pat, dh) in [("NN", DhAlg::X25519), ("XX", DhAlg::X25519), ("NN", DhAlg::P256), ("IK", DhAlg::P256)] {
+            for round in 0..3 {
+                let p = proto(pat, &[], dh, CipherAlg::ChaChaPoly, HashAlg::Sha256);
+                let mut cfg = Config::honest(&p, 0);
+                cfg.crypto_oracle = false;
+                cfg.backend = [backend, backend];
+                cfg.eph = [Eph::Os, Eph::Os];
+                let ops = sess::handshake_ops(&p, &[1, 1, 1, 1]);
+                let e = Exec::run(&cfg, &ops);
+                ctx.add(&ctx.evaluations, 1);
+                ctx.add(&ctx.transitions, ops.len() as u64);
+                for (side, ws) in e.wires.iter().enumerate() {
+                    for (k, w) in ws.iter().enumerate() {
+                        // message k of this side: does it start with an e token?
+                        let idx = 2 * k + side;
+                        if p.pattern.msgs.get(idx).and_then(|m| m.first()) != Some(&refnoise::patterns::Tok::E) || w.bytes.len() < dh.publen() {
+                            continue;
+                        }
+                        let ek = w.bytes[..dh.publen()].to_vec();
+                        let tag = format!("{} {backend:?} session {round} message {idx}", p.name);
+                        if let Some((_, other)) = seen.iter().find(|(x, _)| *x == ek) {
+                            ctx.violation("two handshake messages carry the same ephemeral key although the built-in random source was used", format!("{tag} and {other}"), json!({"kind": "builtin-rng"}));
+                        }
+                        seen.push((ek, tag));
+                        ctx.add(&ctx.nontrivial, 1);
+                    }
+                }
+            }
+        }
+    }
+    ctx.count("ephemerals_from_builtin_random_sources", seen.len() as u64);
+}
+
 pub fn run(tier: Tier) -> i32 {
     let ctx = Ctx::new("C06", tier, "model_checking");
     let quick = ctx.quick();
@@ -363,6 +404,7 @@ pub fn run(tier: Tier) -> i32 {
     names.par_iter().for_each(|(p, b2)| e1_name(&ctx, p, *b2));
     stateless_rekey_sweep(&ctx, if quick { 4 } else { 5 });
     observation_sweep(&ctx);
+    builtin_rng_sessions(&ctx);
     ctx.count("e1_names", names.len() as u64);
     let (extra, devs) = if quick { (3, 2) } else { (5, 3) };
     let mut e2: Vec<Proto> = patterns::base_patterns().iter().map(|b| Proto::new(b, &[], DhAlg::X25519, CipherAlg::ChaChaPoly, HashAlg::Sha256).unwrap()).collect();
@@ -389,6 +431,15 @@ pub fn run(tier: Tier) -> i32 {
 }
 
 pub fn replay(case: &serde_json::Value) -> Result<(), String> {
+    if case["kind"] == "builtin-rng" {
+        let ctx = Ctx::new("C06", Tier::Quick, "model_checking");
+        builtin_rng_sessions(&ctx);
+        let v = ctx.violations.lock().unwrap();
+        return match v.first() {
+            Some(x) => Err(format!("{}: {}", x.signature, x.detail)),
+            None => Ok(()),
+        };
+    }
     let (cfg, ops) = sess::case_from_json(case).ok_or("bad case")?;
     let e = sess::run(&cfg, &ops);
     match judge_all(&e).first() {
